@@ -134,11 +134,11 @@ def isAdd : Op → Bool
   | .remove _ => false
   | _ => true
 
-def opNode : Op → Node
-  | .add n => n
-  | .addR n _ => n
-  | .addW n _ => n
-  | .remove n => n
+def opNode (op : Op) : Node := op.node
+
+/-- what the caller of an operation recovers when a `String()` ended with fault `kind` -/
+def faultToken (kind : String) : String :=
+  if kind = "err" then "err:boom" else if kind = "str" then "str:boom" else kind
 
 /-- states a reader may see while the writer runs `prog` from `s`: after j operations (`.1`) and, for an
 adding operation j, the intermediate state without the node (`.2`) -/
@@ -221,12 +221,25 @@ def hasTwins (m : SMap) : Bool :=
   let nums := m.filterMap fun p => if p.2 > 0 && p.1.kind ∈ ["i", "j", "a", "h", "w", "n", "c", "k", "m", "u", "d", "r"] then p.1.repr.toInt? else none
   nums.any fun x => nums.any fun y => x - y ∈ [(256 : Int), 65536, 4294967296, 18446744073709551616]
 
-/-- a ring as cache.New / kv.NewStore build it: NewConsistentHash, AddWithWeight(node, conf.Weight) in order -/
-def parseConf (kind : String) (t : String) : Option (List Op) :=
+/-- `<addr>/<weight>,…` (or `-` for the empty configuration) as the configuration the constructors get -/
+def parseUserConf (kind : String) (t : String) : Option (List (Node × Int)) :=
+  if t = "-" then some [] else
   (t.splitOn ",").mapM fun e =>
     match e.splitOn "/" with
-    | [a, w] => do pure (.addW { kind := kind, repr := a } (← w.toInt?))
+    | [a, w] => do pure ({ kind := kind, repr := a }, (← w.toInt?))
     | _ => none
+
+def showAddr : Outcome → String
+  | .node n => n.repr | .none => "-" | .panic => "PANIC"
+
+/-- `<addr>/<cmd>/<key|key…>` -/
+def parseRec (t : String) : Option (String × String × List String) :=
+  match t.splitOn "/" with
+  | [a, c, ks] => some (a, c, if ks = "" then [] else ks.splitOn "|")
+  | _ => none
+
+def dedupSorted (l : List String) : List String :=
+  (l.mergeSort (· ≤ ·)).foldr (fun a acc => if acc.head? = some a then acc else a :: acc) []
 
 def runUserSection (r : Report) (sec : Section) (user : String) (probes : List Node) : Report := Id.run do
   let H := hasherOf "murmur" 1
@@ -234,32 +247,69 @@ def runUserSection (r : Report) (sec : Section) (user : String) (probes : List N
   let mut r := r.addCover s!"user-{user}"
   -- the previous instance of this section: (membership as sorted (address, virtual nodes), conf, dispatch addresses)
   let mut prevBuild : Option (List (String × Nat) × String × List String) := none
+  -- the instance the `call` operations work on
+  let mut inst : UserInst := .fatal
+  let mut mInst : SMap := []
+  let mut confInst : String := "-"
+  -- the implementation's OWN dispatcher.Get answer per probe key on that instance (the `g=` of its `build` line)
+  let mut implMap : List (String × String) := []
   for l in sec.lines do
     r := { r with ops := r.ops + 1 }
     match l.op with
-    | ["build", conf] =>
-      match parseConf kind conf with
+    | [b, conf] =>
+      if b ≠ "build" ∧ b ≠ "buildx" then r := r.mismatch sec.idx l.idx "bad-op" (joinSp l.op) else
+      match parseUserConf kind conf with
       | none => r := r.mismatch sec.idx l.idx "bad-op" (joinSp l.op)
-      | some ops =>
+      | some cf =>
+        let ops : List Op := cf.map fun p => .addW p.1 p.2
         -- NewConsistentHash() = NewCustomConsistentHash(minReplicas, Hash)
-        let s := ops.foldl (step H) (CH.new (minReplicas : Int))
-        let m := ops.foldl (specStep s.replicas) []
-        -- cache.New with a single configured node returns that node itself (no ring)
-        let direct := user = "cache" && ops.length == 1
-        if direct then r := r.addCover "build-single-node-no-ring"
-        let outs := probes.map fun p => if direct then (match ops with | [.addW n _] => Outcome.node n | _ => .none) else get H s p
-        let mine := "g=" ++ ",".intercalate (outs.map fun o => match o with
-          | .node n => n.repr | .none => "-" | .panic => "PANIC")
+        let ui := userNew user H cf
+        let m := ops.foldl (specStep (CH.new (minReplicas : Int)).replicas) []
+        if b = "buildx" then r := r.addCover "build-in-child-process"
         let impl := joinSp l.obs
-        if mine ≠ impl then r := r.mismatch sec.idx l.idx mine impl
         r := r.addCover s!"build-{ops.length}-nodes"
         if ops.any (fun o => match o with | .addW _ w => w > 100 | _ => false) then r := r.addCover "build-weight-above-100"
         if ops.any (fun o => match o with | .addW _ w => w ≤ 0 | _ => false) then r := r.addCover "build-weight-nonpositive"
+        let weighted := cf.filter fun p => p.2 > 0
+        if cf.length ≥ 2 && weighted.length == 1 then
+          r := r.addCover "build-one-weighted-node"
+          if (cf.head?.map fun p => decide (p.2 > 0)) == some false then r := r.addCover "build-one-weighted-node-not-first"
         if !(noCollision H m) then r := r.addCover "build-colliding-addresses"
         if m.length < ops.length then r := r.addCover "build-duplicate-address"
+        match ui with
+        | .fatal =>
+          -- the constructor terminates the process: no instance, no dispatch
+          r := r.addCover (if cf.isEmpty then "build-fatal-empty-conf" else "build-fatal-no-positive-weight")
+          if impl ≠ "FATAL" then r := r.mismatch sec.idx l.idx "FATAL" impl
+          -- the property on what the implementation did instead: an instance built from nodes none of which owns a
+          -- virtual node must not send any key anywhere
+          match (kv? l.obs "g").map (fun g => g.splitOn ",") with
+          | some addrs =>
+            for (k, a) in probes.zip addrs do
+              if a ≠ "-" then
+                r := r.violation sec.idx l.idx s!"member-only: {user} dispatch of {showOutcome (.node k)} goes to {a} although no configured node has a positive weight, conf=[{conf}]"
+          | none => pure ()
+          if b = "build" then
+            inst := .fatal
+            mInst := m
+            confInst := conf
+            implMap := []
+        | _ =>
+        -- cache.New with a single configured node returns that node itself (no ring)
+        let direct := match ui with | .direct _ => true | _ => false
+        if direct then r := r.addCover "build-single-node-no-ring"
+        let outs := probes.map fun p => ui.dispatch H p
+        let mine := "g=" ++ ",".intercalate (outs.map showAddr)
+        if mine ≠ impl then r := r.mismatch sec.idx l.idx mine impl
+        if outs.all (· == .none) then r := r.addCover "build-ring-without-virtual-nodes"
+        if b = "build" then
+          inst := ui
+          mInst := m
+          confInst := conf
         -- monitor on the implementation's answers: dispatch goes to a configured node with virtual nodes
         match (kv? l.obs "g").map (fun g => g.splitOn ",") with
-        | none => r := r.mismatch sec.idx l.idx "bad-obs" impl
+        | none =>
+          if impl = "FATAL" then r := r.addCover "build-fatal-unexpected" else r := r.mismatch sec.idx l.idx "bad-obs" impl
         | some addrs =>
           -- multi-instance: two instances built from the same membership (other order of the entries) dispatch alike
           let norm := ((m.map fun p => (p.1.repr, p.2)).mergeSort fun a b => a.1 ≤ b.1)
@@ -272,10 +322,67 @@ def runUserSection (r : Report) (sec : Section) (user : String) (probes : List N
                   r := r.violation sec.idx l.idx s!"history-dependent: {user} dispatch of {showOutcome (.node k)} goes to {b} but to {a} on an instance built from the same nodes and weights in another order, conf=[{conf}] other=[{pconf}]"
           | none => pure ()
           prevBuild := some (norm, conf, addrs)
+          if b = "build" then implMap := (probes.map (·.repr)).zip addrs
           for (k, a) in probes.zip addrs do
             let o : Outcome := if a = "-" then .none else if a = "PANIC" then .panic else .node { kind := kind, repr := a }
-            if !direct && !memberOk m o then
+            -- also for the single node that cache.New returns directly: it is the one configured node, and its weight
+            -- is positive (the constructor would have refused the configuration otherwise)
+            if direct then
+              if (match cf with | [p] => p.1.repr != a || decide (p.2 ≤ 0) | _ => true) then
+                r := r.violation sec.idx l.idx s!"member-only: {user} dispatch of {showOutcome (.node k)} goes to {a}, not the configured node with a positive weight, conf=[{conf}]"
+            else if !memberOk m o then
               r := r.violation sec.idx l.idx s!"member-only: {user} dispatch of {showOutcome (.node k)} goes to {a}, conf=[{conf}]"
+    | ["call", method, strsT] =>
+      -- a public method of the instance built last: entry point → Ctx variant → dispatcher.Get(key) → node → redis command
+      let strs := strsT.splitOn ","
+      let base := (method.splitOn "+").headD method
+      let keys := callKeys user base strs
+      let targets := callTargets H inst user base strs
+      r := r.addCover s!"call-{user}-{base}"
+      match (method.splitOn "+")[1]? with
+      | some v => r := r.addCover s!"call-outcome-{v}"
+      | none => pure ()
+      if keys.length > 1 then r := r.addCover "call-several-keys"
+      if (dedupSorted (targets.map showAddr)).length > 1 then r := r.addCover "call-keys-on-several-nodes"
+      if strs.length > keys.length then r := r.addCover "call-with-other-strings"
+      match inst with
+      | .direct _ => r := r.addCover "call-on-direct-node"
+      | _ => pure ()
+      if targets.any (· == .none) then r := r.addCover "call-key-without-node"
+      match (kvStr l.obs "c" "?") with
+      | "?" => r := r.mismatch sec.idx l.idx "bad-obs" (joinSp l.obs)
+      | c =>
+        let recsT := if c = "-" then [] else c.splitOn ";"
+        match recsT.mapM parseRec with
+        | none => r := r.mismatch sec.idx l.idx "bad-obs" c
+        | some recs =>
+          -- correspondence: the set of nodes that received a command
+          let mine := dedupSorted ((targets.filter (· != .none)).map showAddr)
+          let seen := dedupSorted (recs.map (·.1))
+          if mine ≠ seen then r := r.mismatch sec.idx l.idx (",".intercalate mine) (",".intercalate seen)
+          -- the monitor compares with the implementation's own ring (what its dispatcher answered for that key when the
+          -- instance was built): a method that forwards another string than its key, drops a key or mixes keys up sends
+          -- the command to another node than the ring's. (Keys of calls are probe keys; the model is the fallback.)
+          let expectedOf : String → String := fun k => match implMap.find? (·.1 == k) with
+            | some p => p.2
+            | none => showAddr (inst.dispatch H (strKey k))
+          for (addr, cmd, shown) in recs do
+            r := r.addCover "call-command"
+            -- the node must be one the property allows at all
+            let o : Outcome := .node { kind := kind, repr := addr }
+            let isDirect := match inst with | .direct n => n.repr == addr | _ => false
+            if !isDirect && !memberOk mInst o then
+              r := r.violation sec.idx l.idx s!"member-only: {user}.{method} sent {cmd} to {addr}, which owns no virtual node, conf=[{confInst}]"
+            else if multiKey base then
+              for k in shown do
+                if keys.contains k && expectedOf k != addr then
+                  r := r.violation sec.idx l.idx s!"dispatch: {user}.{method} sent {cmd} for key {k} to {addr} but the ring maps that key to {expectedOf k}, conf=[{confInst}]"
+            else
+              match keys with
+              | [k] =>
+                if expectedOf k != addr then
+                  r := r.violation sec.idx l.idx s!"dispatch: {user}.{method} sent {cmd} to {addr} but the ring maps its key {k} to {expectedOf k}, conf=[{confInst}] args=[{strsT}]"
+              | _ => r := r.mismatch sec.idx l.idx "one key" strsT
     | _ => r := r.mismatch sec.idx l.idx "bad-op" (joinSp l.op)
   return r
 
@@ -322,6 +429,17 @@ def runSection (r : Report) (sec : Section) : Report := Id.run do
         | some o =>
           if !memberOk m o then
             r := r.violation sec.idx l.idx s!"member-only: Get {k} returned {impl}, members=[{joinSp (m.map fun p => s!"{showOutcome (.node p.1)}*{p.2}")}]"
+    | ["pget", _, kind] =>
+      -- Get with a Stringer key whose String() does not return: it is called under the read lock, after the test for
+      -- the empty ring. The ring is unchanged, and the lock must have been released.
+      r := r.addCover s!"fault-get-{kind}"
+      let expectP := if s.ring.isEmpty then "ok" else faultToken kind
+      if s.ring.isEmpty then r := r.addCover "fault-get-empty-ring-string-not-called"
+      let mine := s!"P={expectP} locked=0 g=-"
+      let impl := joinSp l.obs
+      if mine ≠ impl then r := r.mismatch sec.idx l.idx mine impl
+      if kvStr l.obs "locked" "?" ≠ "0" then
+        r := r.violation sec.idx l.idx s!"lock-leak: Get left the ring locked when String() of the key ended with {kind}: every later Add / Remove blocks for ever and no key is served any more"
     | ["storm", _, _, keysT, progT] =>
       match (keysT.splitOn ",").mapM parseValue, parseProg progT with
       | some keys, some prog =>
@@ -404,28 +522,51 @@ def runSection (r : Report) (sec : Section) : Report := Id.run do
     | _ =>
       let gated := match l.op with
         | "gadd" :: _ => true | "gaddr" :: _ => true | "gaddw" :: _ => true | _ => false
-      let opToks := if gated then (l.op.head!.drop 1).toString :: l.op.drop 1 else l.op
-      match parseOp opToks with
+      -- the operation with a Stringer node whose nth lock-free String() call does not return
+      let faulty := match l.op with
+        | "padd" :: _ => true | "paddr" :: _ => true | "paddw" :: _ => true | "premove" :: _ => true | _ => false
+      let opToks := if gated then (l.op.head!.drop 1).toString :: l.op.drop 1
+        else if faulty then (l.op.head!.drop 1).toString :: (l.op.drop 1).take (l.op.length - 3) else l.op
+      let nth := if faulty then ((l.op[l.op.length - 2]?).bind String.toNat?).getD 0 else 0
+      let fkind := if faulty then l.op.getLast?.getD "" else ""
+      let implP := kvStr l.obs "P" "ok"
+      match (if faulty && (nth < 1 || nth > 2) then none else parseOp opToks) with
       | none => r := r.mismatch sec.idx l.idx "bad-op" (joinSp l.op)
       | some op =>
+        -- did the fault fire? (the second lock-free String() exists only in the two-critical-section form of
+        -- AddWithReplicas and never in Remove: `ok` is accepted there, the operation then ran to its end)
+        let fired := faulty && implP ≠ "ok"
+        if faulty then
+          r := r.addCover s!"fault-{fkind}-at-string-call-{nth}"
+          r := r.addCover (if fired then s!"fault-fired-{(opToks.headD "")}" else "fault-not-reached")
+          let okAllowed := nth == 2
+          if !(implP = faultToken fkind || (implP = "ok" && okAllowed)) then
+            r := r.mismatch sec.idx l.idx s!"P={faultToken fkind}" s!"P={implP}"
+          if kvStr l.obs "locked" "?" ≠ "0" then
+            r := r.violation sec.idx l.idx s!"lock-leak: [{joinSp l.op}] left the ring locked after String() ended with {fkind}: every later operation blocks for ever"
+          if fired && nth == 2 && m.cnt op.repr > 0 then r := r.addCover "fault-after-remove-node-gone"
         r := r.addCover (branchOf s m op)
         r := kindCover r "node" (opNode op)
         let overflows := match op with
           | .addW _ w => wrapInt ((s.replicas : Int) * w) != (s.replicas : Int) * w
           | _ => false
         if overflows then r := r.addCover "addw-product-overflows"
+        match op with
+        | .addW _ w => if weightReplicas s.replicas w > 1000000 then r := r.addCover "addw-only-the-clamp-keeps-it-finite"
+        | .addR _ c => if c > 1000000 then r := r.addCover "addr-only-the-clamp-keeps-it-finite"
+        | _ => pure ()
         let wasMember := m.cnt op.repr > 0
         let collBefore := noCollision H m
         let sPre := s
         let mPre := m
-        s := step H s op
-        m := specStep s.replicas m op
+        s := if fired then stepFault H s op nth else step H s op
+        m := if fired then specStepFault m op nth else specStep s.replicas m op
         let isMember := m.cnt op.repr > 0
         let collAfter := noCollision H m
         if hasTwins m then r := r.addCover "ring-has-twos-complement-twins"
         if (mPre.find op.repr).any (fun p => p.1 != opNode op) then r := r.addCover "op-on-slot-held-by-other-value"
         let segs := if gated then splitBar l.obs else [l.obs]
-        let finalObs := (segs.getLast?.getD []).filter (· ≠ "DATARACE")
+        let finalObs := (segs.getLast?.getD []).filter fun t => t ≠ "DATARACE" && !(t.startsWith "P=") && !(t.startsWith "locked=")
         if l.obs.contains "DATARACE" then
           r := r.violation sec.idx l.idx s!"concurrent: the Go race detector reports a data race during [{joinSp l.op}]"
         let opS := joinSp l.op
